@@ -69,11 +69,11 @@ impl<K, V> HashMap<K, V> {
     #[verifier::external_body]
     pub fn iter_mut(&mut self) -> (r: core::slice::IterMut<'_, (K, V)>)
         ensures
-            r.obeys_prophetic_iter_laws(), r.decrease() is Some,
-            r.remaining().len() == old(self).entries().len(),
-            forall|i: int| 0 <= i < old(self).entries().len() ==> *(#[trigger] r.remaining()[i]) == old(self).entries()[i],
+            vstd::std_specs::iter::IteratorSpec::obeys_prophetic_iter_laws(&r), vstd::std_specs::iter::IteratorSpec::decrease(&r) is Some,
+            vstd::std_specs::iter::IteratorSpec::remaining(&r).len() == old(self).entries().len(),
+            forall|i: int| 0 <= i < old(self).entries().len() ==> *(#[trigger] vstd::std_specs::iter::IteratorSpec::remaining(&r)[i]) == old(self).entries()[i],
             final(self).entries().len() == old(self).entries().len(),
-            forall|i: int| 0 <= i < old(self).entries().len() ==> #[trigger] final(self).entries()[i] == *final(r.remaining()[i]),
+            forall|i: int| 0 <= i < old(self).entries().len() ==> #[trigger] final(self).entries()[i] == *final(vstd::std_specs::iter::IteratorSpec::remaining(&r)[i]),
     { unimplemented!() }
     #[verifier::external_body]
     pub fn keys(&self) -> (r: &Vec<K>)
